@@ -280,6 +280,14 @@ func (r *fileRW) seams() {
 				n.Fun = r.sim("ListenAndServe")
 				return true
 			}
+			// srv.ListenAndServe() on an *http.Server value: listen on the simulated network
+			if se, ok := n.Fun.(*ast.SelectorExpr); ok && se.Sel.Name == "ListenAndServe" && len(n.Args) == 0 {
+				if id, isIdent := se.X.(*ast.Ident); !isIdent || r.imports[id.Name] == "" {
+					n.Fun = r.sim("ServeServer")
+					n.Args = []ast.Expr{se.X}
+					return true
+				}
+			}
 			if name, ok := r.pkgSel(n.Fun, "math/rand"); ok {
 				if repl, ok := randFuncs[name]; ok {
 					n.Fun = r.sim(repl)
